@@ -32,3 +32,5 @@ package keystore
 //@   assert-at call Child#3 private-key-derived-at-the-address-own-branch-and-index: arg0 == ite(mAddr.derivationPath.Branch == 0, lastresult("Child#2"), lastresult("Child#1")) && arg1 == mAddr.derivationPath.Index
 //@   assert-at call ECPrivKey of-that-child: arg0 == lastresult("Child#3")
 //@   assert-at store ManagedAddress.privKey stored-on-that-address: value == lastresult("ECPrivKey") && target == mAddr
+//@   loop mAddr invariant every-address-visited-so-far-has-its-signing-key: forall k string :: visited(k) && has(a.addrs, k) && a.addrs[k] != nil ==> a.addrs[k].privKey != nil
+//@   assert-at return#-1 unlocked-only-when-every-issued-address-can-sign: result == nil && (forall k string :: has(a.addrs, k) && a.addrs[k] != nil ==> a.addrs[k].privKey != nil)
